@@ -44,6 +44,7 @@ type Token struct {
 	Raw  string
 	Val  string // decoded ident / string / url value, number lexeme, function name
 	Unit string // dimension unit (decoded)
+	EOF  bool   // string or url token ended by the end of the input (a parse error)
 }
 
 func isNameStart(c byte) bool {
@@ -209,7 +210,7 @@ func (l *lexer) str(q byte) Token {
 			l.i++
 		}
 	}
-	return Token{T: String, Raw: l.s[start:l.i], Val: sb.String()} // unterminated at EOF: parse error but a string
+	return Token{T: String, Raw: l.s[start:l.i], Val: sb.String(), EOF: true} // unterminated at EOF: parse error but a string
 }
 
 func (l *lexer) url(start int) Token {
@@ -229,10 +230,11 @@ func (l *lexer) url(start int) Token {
 				l.i++
 			}
 			if l.peek(0) == ')' || l.i >= len(l.s) {
+				eof := l.i >= len(l.s)
 				if l.i < len(l.s) {
 					l.i++
 				}
-				return Token{T: URL, Raw: l.s[start:l.i], Val: sb.String()}
+				return Token{T: URL, Raw: l.s[start:l.i], Val: sb.String(), EOF: eof}
 			}
 			return l.badURL(start)
 		case c == '"' || c == '\'' || c == '(' || c < 0x20 && c != '\t' || c == 0x7f:
@@ -249,7 +251,7 @@ func (l *lexer) url(start int) Token {
 			l.i++
 		}
 	}
-	return Token{T: URL, Raw: l.s[start:l.i], Val: sb.String()}
+	return Token{T: URL, Raw: l.s[start:l.i], Val: sb.String(), EOF: true}
 }
 
 func (l *lexer) badURL(start int) Token {
